@@ -147,15 +147,29 @@ def monitor(m, lines):
             return "QB_LOG_CONF_MAX_LINE_LEN refused %d" % m["value"], None
         return None, None
     if m["kind"] == "M":
-        # a whole log call ("%s", msg): delivered exactly once, truncated to the limit, trailing newline dropped
+        # a whole log call ("%s", msg): cut to the limit, trailing newline dropped, then the extended-information marker:
+        # text up to QB_XC; with extended information wanted and present the marker reads '|' and the rest follows; a
+        # message that is only extended information is not delivered to a target that does not want it
         got = [L_.unhx(l.split(" ")[1]) for l in lines if l.startswith("msg ")]
-        if len(got) != 1:
-            return "log call delivered %d times to the one enabled target" % len(got), None
         msg, L = m["msg"], m["L"]
         want = msg[:L - 1] if len(msg) >= L else (msg[:-1] if msg.endswith(b"\n") else msg)
+        k = want.find(b"\a")
+        if k >= 0:
+            if k == 0 and not m["ext"]:
+                want = None
+            elif m["ext"] and k + 1 < len(want):
+                want = want[:k] + b"|" + want[k + 1:]
+            else:
+                want = want[:k]
+        if want is None:
+            if got:
+                return "a message that is only extended information was delivered to a target without QB_LOG_CONF_EXTENDED: %r" % got[0][:60], None
+            return None, None
+        if len(got) != 1:
+            return "log call delivered %d times to the one enabled target" % len(got), None
         if got[0] != want:
-            return "log call with a %d-byte message, limit %d: logger got %r, expected %r" % (
-                len(msg), L, got[0][-60:], want[-60:]), None
+            return "log call with a %d-byte message, limit %d, extended %d: logger got %r, expected %r" % (
+                len(msg), L, m["ext"], got[0][-60:], want[-60:]), None
         return None, None
     if m["kind"] == "T":
         o = [l for l in lines if l.startswith("orc ")]
@@ -268,7 +282,13 @@ def gen_M(rng):
     msg = bytes(rng.choice(b"abcdefghij klmnop.%") for _ in range(ml))
     if rng.random() < 0.3 and ml:
         msg = msg[:-1] + b"\n"
-    return {"kind": "M", "L": L, "prio": rng.choice([0, 3, 6, 7]), "msg": msg}
+    if rng.random() < 0.35 and ml:
+        k = rng.choice([0, 0, ml - 1, rng.randrange(ml)])
+        msg = msg[:k] + b"\a" + msg[k + 1:]
+        if rng.random() < 0.3 and ml > 3:
+            k2 = rng.randrange(ml)
+            msg = msg[:k2] + b"\a" + msg[k2 + 1:]
+    return {"kind": "M", "L": L, "prio": rng.choice([0, 3, 6, 7]), "ext": rng.choice([0, 1]), "msg": msg}
 
 
 def corpus():
@@ -298,10 +318,14 @@ def corpus():
     cs.append({"kind": "F", "L": 512, "fmt": b"%N[%P] " + b"x" * 399})      # modified_format[256] overflow
     cs.append({"kind": "F", "L": 512, "fmt": b"%-8P %5N %H %b %p abc%"})
     cs.append({"kind": "F", "L": 4096, "fmt": b"y" * 5000})
-    cs.append({"kind": "M", "L": 512, "prio": 6, "msg": b""})               # cs_format: str[len - 1] with len = 0
-    cs.append({"kind": "M", "L": 512, "prio": 6, "msg": b"\n"})
-    cs.append({"kind": "M", "L": 8, "prio": 6, "msg": b"0123456789"})
-    cs.append({"kind": "M", "L": 600, "prio": 6, "msg": b"m" * 5000})
+    cs.append({"kind": "M", "L": 512, "prio": 6, "ext": 1, "msg": b""})      # cs_format: str[len - 1] with len = 0
+    cs.append({"kind": "M", "L": 512, "prio": 6, "ext": 1, "msg": b"\n"})
+    cs.append({"kind": "M", "L": 8, "prio": 6, "ext": 1, "msg": b"0123456789"})
+    cs.append({"kind": "M", "L": 600, "prio": 6, "ext": 0, "msg": b"m" * 5000})
+    for ext in (0, 1):
+        for msg in (b"basic\aextended", b"\aonly extended", b"trailing\a", b"a\ab\ac", b"\a", b"ab\a\n", b"0123456\a89"):
+            cs.append({"kind": "M", "L": 512, "prio": 6, "ext": ext, "msg": msg})
+        cs.append({"kind": "M", "L": 8, "prio": 6, "ext": ext, "msg": b"0123456\a89"})
     for v in (0, -1, -2147483648, 1, 2, 512, 4096, 4097, 2147483647):
         cs.append({"kind": "ctl", "value": v})
     return cs
@@ -313,7 +337,7 @@ def script_of(m):
     if m["kind"] == "F":
         return ["F %d %s" % (m["L"], hx(m["fmt"]))]
     if m["kind"] == "M":
-        return ["M %d %d %s" % (m["L"], m["prio"], hx(m["msg"]))]
+        return ["M %d %d %d %s" % (m["L"], m["prio"], m["ext"], hx(m["msg"]))]
     return ["T %d %d %s %s %s %s %d %d %s %d %d %s" % (
         m["L"], m["ell"], hx(m["fmt"]), hx(m["msg"]), hx(m["fn"]), hx(m["file"]), m["lineno"], m["prio"],
         "N" if m["tag"] is None else hx(m["tag"]), m["sec"], m["nsec"], m["garbage"])]
@@ -347,8 +371,8 @@ def judge(m, impl, mod):
             crash[0], " ".join(x for x in crash[1].split("\n") if "ERROR" in x or "runtime error" in x)[:300]),
             crash[1][-1500:], None)
     msg, finding = monitor(m, lines)
-    il = [l for l in lines if l.split(" ")[0] in ("ctl", "out", "fmt")]
-    ml = [l for l in mod[0] if l.split(" ")[0] in ("ctl", "out", "fmt", "oob")]
+    il = [l for l in lines if l.split(" ")[0] in ("ctl", "out", "fmt", "msg", "dlv")]
+    ml = [l for l in mod[0] if l.split(" ")[0] in ("ctl", "out", "fmt", "oob", "msg", "dlv")]
     if m["kind"] == "ctl":
         il = ["ctl 0" if l == "ctl 0" else "ctl -22" for l in il]
     d = C.first_diff(il, ml)
@@ -356,6 +380,9 @@ def judge(m, impl, mod):
     gl = [l for l in mod[0] if l.startswith("guard ")]
     if msg and m["kind"] == "T" and gl:
         finding = F_RALIGN if gl[0] == "guard 0" else None
+    sg = [l for l in mod[0] if l.startswith("sguard ")]
+    if msg and m["kind"] == "F" and sg:
+        finding = F_RALIGN if sg[0] == "sguard 0" else None
     if msg:
         return ("impl-monitor", msg, {"first_model_difference": d}, finding)
     if mod[1]:
@@ -365,6 +392,18 @@ def judge(m, impl, mod):
                 {"first_difference": d}, None)
     # the Coq line_spec against the Python statement (two independent readings of the documented format)
     sp = [l for l in mod[0] if l.startswith("spec ")]
+    ss = [l for l in mod[0] if l.startswith("sspec ")]
+    if m["kind"] == "F" and ss and "pid" in m:
+        want, clamped = static_spec(m)
+        if L_.unhx(ss[0].split(" ")[1]) != want:
+            return ("correspondence", "static_spec of the model differs from the monitor's statement of the format: %r vs %r"
+                    % (ss[0][:160], want[:80]), {}, None)
+    ms = [l for l in mod[0] if l.startswith("mspec ")]
+    if m["kind"] == "M" and ms:
+        got = [l for l in lines if l.startswith("msg ")]
+        if (ms[0] == "mspec none") != (not got) or (got and got[0].split(" ")[1] != ms[0].split(" ")[1]):
+            return ("correspondence", "log_call_spec of the model differs from what the logger got: %r vs %r"
+                    % (ms[0][:120], got[:1]), {}, None)
     if m["kind"] == "T" and sp:
         want, clamped = line_spec(m)
         if L_.unhx(sp[0].split(" ")[1]) != want:
@@ -440,8 +479,8 @@ def run(ctx):
                                        "fixes/C13-3-max-line-len-range.patch", "fixes/C13-4-cs-format-empty.patch"]}
     res.assumptions = ["time-stamp texts (%t, %T), pid, host name and the tags text are oracles recorded from the run",
                        "the output buffer has exactly max_line_length bytes (callers allocate at least that)",
-                       "cs_format (message expansion in lib/log.c) is not modelled in Coq: whole log calls are checked on the "
-                       "implementation only (monitor + sanitizer, 'M' cases); qb_do_extended is not covered"]
+                       "a whole log call is modelled for the format \"%s\" (the untruncated rendering r of the message is the "
+                       "oracle of cs_format; the theorems quantify over every r)"]
     return res
 
 
